@@ -84,6 +84,9 @@ MNext ==
                ELSE IF e.e \in {"acqx", "relx"} /\ e.why = "cancel" /\ e.c \notin cancelled THEN 22
                \* the counter went below zero
                ELSE IF \E k \in Keys : P[k].wneg THEN 23
+               \* at the end of the run (every client task is over or idle) a connection is still handed out:
+               \* its session never returned it
+               ELSE IF e.e = "end" /\ \E x \in Conns : holders[x] # {} THEN 24
                ELSE 0
 
 MSpec == MInit /\ [][MNext]_mvars
